@@ -82,6 +82,10 @@ VALUE_OPS = {
     "number_two_dots_in_range": "as.constant 1.0 >1.5.5 as.zero",
     "number_overflows": "as.buck 1e999 0.3 32.0",
     "number_overflows_negative": "as.polynomial 1.0 -1E+400",
+    "trans_second_has_ranges": "trans(as.buck 1000.0 0.3 32.0, as.constant 1.0 >=1.5 as.constant 2.0)",
+    "number_huge_integer": "as.constant 1" + "0" * 400,
+    "number_other_script_digits": "as.constant \u0661\u0662",
+    "number_other_script_range": "as.constant 12 >\u0661 as.zero",
     "spline_type_is_modifier": "spline(as.buck 1000.0 0.3 0.0 >0.8 sum(as.constant 1, as.constant 2) >1.4 as.buck 0.0 1.0 32.0)",
 }
 OTHER_OPS = [
@@ -89,7 +93,9 @@ OTHER_OPS = [
     "grid_nr_not_integer", "grid_dr_not_number", "grid_not_finite", "grid_three_with_zero", "dlpoly_nr_not_multiple_of_4",
     "pair_key_no_dash", "pair_key_three_species", "pair_key_empty_species", "missing_pair_section",
     "fs_key_without_arrow", "fs_key_two_arrows", "fs_key_empty_species", "species_key_empty_label",
-    "formula_signature_trailing_text", "number_with_underscore", "placeholder_unresolvable_in_unread_entry", "missing_embed_section", "missing_density_section",
+    "formula_signature_trailing_text", "number_with_underscore", "placeholder_unresolvable_in_unread_entry",
+    "grid_other_script_digits", "species_malformed_in_pair_model", "formula_unused_unparsable", "formula_label_is_language_function",
+    "table_named_like_pymath_function", "missing_embed_section", "missing_density_section",
     "species_without_data", "species_data_removed", "species_key_without_dot", "species_mass_not_number", "species_number_not_integer",
     "custom_wrong_arity", "table_form_with_params", "formula_bad_signature", "formula_signature_no_paren",
     "formula_unparsable", "formula_undefined_symbol", "formula_unknown_function", "formula_calls_wrong_arity",
@@ -256,6 +262,42 @@ def mutate(case):
         settab(["nr", "cutoff", "dr"][site % 3], ["0", "0.0"][site % 2] if site % 3 else "0")
     elif op == "grid_nr_not_integer":
         settab("nr", "10.5")
+    elif op == "grid_other_script_digits":
+        # int() and float() read the digits of any script: '\u0661\u0662' is 12 to them, not to the input format
+        deltab("dr")
+        if site % 2:
+            settab("nr", "\u0661\u0662")
+        else:
+            settab("cutoff", "\u0665.\u0660")
+    elif op == "species_malformed_in_pair_model":
+        # [Species] is not read for pair targets; what it holds is still part of the model
+        if kind != "pair":
+            return None
+        sp = _sec(secs, "Species")
+        if sp is None:
+            sp = ["Species", []]
+            secs.append(sp)
+        sp[1].append([["Al.atomic_mass", "abc"], ["foo", "1"], ["Al.atomic_number", "13.5"], [".atomic_mass", "2"]][site % 4])
+    elif op == "formula_unused_unparsable":
+        # a formula no entry refers to (formulas are parsed at first use)
+        pf = _sec(secs, "Potential-Form")
+        if pf is None:
+            pf = ["Potential-Form", []]
+            secs.append(pf)
+        pf[1].insert(site % (len(pf[1]) + 1), [["unusedf(r, A)", "A*r+*"], ["unusedf(r, A)", "A*qzz + r"], ["unusedf(r)", "nosuchfn(r)"]][site % 3])
+    elif op == "formula_label_is_language_function":
+        # 'root', 'exp'... are functions of the formula language: such a label cannot be offered to other formulas
+        pf, i = _ensure_custom(secs, site)
+        name = ["root", "exp", "min", "clamp", "avg"][site % 5]
+        pf[1][i][0] = "%s(r, a)" % name
+        for s_, j in _potdef_entries(secs):
+            if s_[1][j][1] == "mutf 2.0":
+                s_[1][j][1] = "%s 2.0" % name
+        if site % 2:
+            pf[1].append(["otherf(r)", "r + 1.0"])
+    elif op == "table_named_like_pymath_function":
+        _ensure_custom(secs, site)
+        secs.append(["Table-Form:pymath.%s" % ["ceil", "floor", "fabs"][site % 3], [["x", "0.0 1.0 2.0 3.0 4.0"], ["y", "5.0 4.0 3.0 2.0 1.0"]]])
     elif op == "grid_dr_not_number":
         deltab("cutoff"), settab("dr", "fine")
     elif op == "dlpoly_nr_not_multiple_of_4":
